@@ -124,7 +124,10 @@ void task_group_context_impl::bind_to_impl(d1::task_group_context& ctx, thread_d
 
     // Condition below prevents unnecessary thrashing parent context's cache line
     if (ctx.my_parent->my_may_have_children.load(std::memory_order_relaxed) != d1::task_group_context::may_have_children) {
-        ctx.my_parent->my_may_have_children.store(d1::task_group_context::may_have_children, std::memory_order_relaxed); // full fence is below
+        // The store must be sequentially consistent: the parent's cancellation state is speculatively read below, before the
+        // full fence in register_with(), and a concurrent cancel_group_execution() on the parent reads my_may_have_children
+        // right after setting that state. If this store were delayed past the speculative read, both sides could miss each other.
+        ctx.my_parent->my_may_have_children.store(d1::task_group_context::may_have_children, std::memory_order_seq_cst);
     }
     if (ctx.my_parent->my_parent) {
         // Even if this context were made accessible for state change propagation
